@@ -44,7 +44,10 @@ func SetupKeyed() *app.SettlusApp {
 	var balances []banktypes.Balance
 	big, _ := sdk.NewIntFromString("1000000000000000000000000")
 	totalSupply := sdk.NewCoins()
-	for i := 0; i < NAcc+NVal; i++ {
+	for i := 0; i < NAcc+NVal+6; i++ {
+		if i >= NAcc+NVal && i != NAcc+NVal+5 {
+			continue
+		}
 		k := Key(i)
 		acc := authtypes.NewBaseAccount(KeyAddr(i), k.PubKey(), uint64(i), 0)
 		genAccs = append(genAccs, acc)
@@ -67,7 +70,8 @@ func SetupKeyed() *app.SettlusApp {
 			DelegatorShares: sdk.OneDec(), Description: stakingtypes.Description{}, UnbondingHeight: 0, UnbondingTime: time.Unix(0, 0).UTC(),
 			Commission: stakingtypes.NewCommission(sdk.ZeroDec(), sdk.ZeroDec(), sdk.ZeroDec()), MinSelfDelegation: sdk.ZeroInt(), Probono: false,
 		})
-		delegations = append(delegations, stakingtypes.NewDelegation(KeyAddr(0), op, sdk.OneDec()))
+		// the genesis delegator is an account no history uses, so reward withdrawals never touch a tracked balance
+		delegations = append(delegations, stakingtypes.NewDelegation(KeyAddr(NAcc+NVal+5), op, sdk.OneDec()))
 		totalSupply = totalSupply.Add(sdk.NewCoin(config.BaseDenom, bondAmt))
 	}
 	sp := stakingtypes.DefaultParams()
